@@ -28,7 +28,10 @@ RULE = ('extract_loci: synthetic genomes (1-4 chromosomes of 12-90 bases, upper/
         'integer signal tracks with uncovered stretches) written as FASTA+bigwig+BED and passed as arrays/'
         'DataFrames; 1-3 locus sets of unequal length with midpoints drawn mostly so that the expanded '
         'window ends within 2 positions of a chromosome end; in/out windows 1-14 of both parities, '
-        'in <,=,> out, jitter 0-3, chroms filter, n_loci caps, min/max counts on the boundary. '
+        'in <,=,> out, jitter 0-3, chroms filters (incl. chromosome-sorted sets whose requested '
+        'chromosomes are not the first, so prefixes/middles of different lengths are removed per set), '
+        'DataFrames with default / shuffled / reversed / duplicate / stale row labels, n_loci caps, '
+        'min/max counts on the boundary. '
         'read_meme: files drawn from the grammar header . (MOTIF . other lines . letter line . w rows . '
         'separators*)* with 1-6 motifs, w 0-6, blank/URL/whitespace separators or none, LF/CRLF/mixed, '
         'with/without final newline, trailing blanks, decimal/exponent tokens. '
@@ -223,7 +226,9 @@ def run_loci(inp, mode):
                 y = extract_loci(loci, fa, signals=bws if inp['nsig'] else None, **kw)
         else:
             seqs, sigs = genome_arrays(inp)
-            dfs = [pandas.DataFrame(st, columns=['chrom', 'start', 'end']) for st in sets]
+            idx = inp.get('dfindex') or [None] * len(sets)
+            dfs = [pandas.DataFrame(st, columns=['chrom', 'start', 'end'], index=ix)
+                   for st, ix in zip(sets, idx)]
             loci = dfs if (len(dfs) > 1 or inp.get('aslist')) else dfs[0]
             y = extract_loci(loci, seqs, signals=sigs if inp['nsig'] else None, **kw)
         return decode_rows(y, inp['nsig'])
@@ -545,10 +550,46 @@ def gen_loci(rng):
             mn = rng.randint(0, typ + 4)
         if rng.random() < 0.5:
             mx = rng.randint(max(0, typ - 6), typ + 10)
+    if chroms is not None and rng.random() < 0.6:
+        # BED-like files sorted by chromosome; the requested chromosomes are not the first ones,
+        # so the filter removes prefixes / middles of different lengths in the different sets
+        order = ids + extra
+        rng.shuffle(order)
+        sets = [sorted(st, key=lambda l: order.index(l[0])) for st in sets]
+        if len(order) > 1:
+            rest = [c for c in order[1:] if c in lens]
+            if rest:
+                chroms = sorted(rng.sample(rest, rng.randint(1, len(rest))))
     inp = {'kind': 'loci', 'genome': genome, 'sets': sets, 'chroms': chroms, 'win': win, 'wout': wout,
            'jit': jit, 'nsig': nsig, 'min': mn, 'max': mx, 'tgt': rng.randrange(nsig) if nsig else 0,
-           'nloci': rng.choice([None, None, None, 0, 1, 2, 3, 5]), 'aslist': rng.random() < 0.5}
+           'nloci': rng.choice([None, None, None, 0, 1, 2, 3, 5]), 'aslist': rng.random() < 0.5,
+           'dfindex': gen_dfindex(rng, sets)}
     return inp
+
+
+def gen_dfindex(rng, sets):
+    """row labels of the DataFrames handed to extract_loci (None = default RangeIndex)"""
+    if rng.random() < 0.5:
+        return None
+    out = []
+    for st in sets:
+        n = len(st)
+        k = rng.random()
+        if k < 0.25:
+            out.append(None)
+        elif k < 0.5:
+            ix = list(range(n))
+            rng.shuffle(ix)
+            out.append(ix)                                   # shuffled
+        elif k < 0.65:
+            out.append(list(range(n - 1, -1, -1)))          # reversed
+        elif k < 0.8:
+            out.append([rng.randint(0, 2) for _ in range(n)])   # duplicates
+        elif k < 0.9:
+            out.append([7 + 3 * i for i in range(n)])        # left over from an earlier filter
+        else:
+            out.append([rng.randint(-5, 40) for _ in range(n)])
+    return out
 
 
 def counts_on_boundary(inp, rng):
@@ -611,12 +652,17 @@ def shrink(inp):
                                                      letter=dict(b['letter'], toks=toks))] + B[i + 1:])
         return
     S = inp['sets']
+    D = inp.get('dfindex') or [None] * len(S)
+    if inp.get('dfindex'):
+        yield dict(inp, dfindex=None)
     for i in range(len(S)):
         if len(S) > 1:
-            yield dict(inp, sets=S[:i] + S[i + 1:])
+            yield dict(inp, sets=S[:i] + S[i + 1:], dfindex=D[:i] + D[i + 1:])
         for k in range(len(S[i])):
             if sum(len(s) for s in S) > 1:
-                yield dict(inp, sets=S[:i] + [S[i][:k] + S[i][k + 1:]] + S[i + 1:])
+                di = None if D[i] is None else D[i][:k] + D[i][k + 1:]
+                yield dict(inp, sets=S[:i] + [S[i][:k] + S[i][k + 1:]] + S[i + 1:],
+                           dfindex=D[:i] + [di] + D[i + 1:])
     used = {l[0] for s in S for l in s}
     G = inp['genome']
     if len(G) > 1:
